@@ -258,6 +258,9 @@ func runOne(r *sim.Run) {
 	if ru.g.specialIDs > 0 {
 		r.Count("probe:service_id_with_special_octets", int64(ru.g.specialIDs))
 	}
+	if ru.g.permutedSets {
+		r.Count("probe:validator_sets_in_different_orders", 1)
+	}
 	if ru.g.specialKeys > 0 {
 		r.Count("probe:storage_state_key_with_special_second_octet", int64(ru.g.specialKeys))
 	}
